@@ -55,6 +55,10 @@ func genC01(rng *rand.Rand, tier string) *sim.Plan {
 	msg := 0
 	subPhase := func(prob float64) sim.Phase {
 		var ph sim.Phase
+		if chance(rng, 0.2*prob) {
+			// all subscriptions of one client removed at once (what the end of a session does to the index)
+			ph.Ops = append(ph.Ops, sim.Op{K: "api_unsuball", C: -9, Target: clientName(rng.IntN(len(p.Clients)))})
+		}
 		for i, c := range p.Clients {
 			n := 0
 			for chance(rng, prob) && n < 3 {
@@ -203,6 +207,27 @@ func subTimelines(p *sim.Plan, h *sim.History) map[int]map[string][]model.Change
 			if c, ok := cidx[o.Op.Target]; ok {
 				for _, f := range o.Op.Filters {
 					add(c, f, model.Change{Span: sp, On: false})
+				}
+			}
+		case "api_unsuball":
+			// revokes every subscription of the client, whatever the filter: a revoking change is entered
+			// for every filter the client ever uses; Holds orders changes by their spans
+			if c, ok := cidx[o.Op.Target]; ok {
+				for _, op2 := range h.Ops {
+					switch op2.Op.K {
+					case "subscribe":
+						if op2.Op.C == c {
+							for _, s := range op2.Op.Subs {
+								add(c, s.Filter, model.Change{Span: sp, On: false})
+							}
+						}
+					case "api_subscribe":
+						if op2.Op.Target == o.Op.Target {
+							for _, s := range op2.Op.Subs {
+								add(c, s.Filter, model.Change{Span: sp, On: false})
+							}
+						}
+					}
 				}
 			}
 		}
